@@ -423,7 +423,18 @@ def r12_5_int_operands(ctx):
     ctx.analysed(init.fq, ev.fq)
     OpS = op_sym(ctx.model)
     table = named_int_table(ctx)
-    for v in (0, 1, 127, 128, 2**64 - 1, _IntSub(1), _IntSub(0), _IntSub(300), True, False, 2**64, -1, "1", "TMPL_A", 1.0):
+    teal = ic.methods["__teal__"]
+    ctx.analysed(teal.fq)
+
+    def teal_oracle(e, me):
+        t = u(e)
+        if t == "Op":
+            return OpS
+        if t == "TealBlock":
+            return Sym("TealBlock", methods={"FromOp": lambda options, op, *a: op})
+        raise Unknown()
+
+    for v in (0, 1, 127, 128, 2**64 - 1, _IntSub(1), _IntSub(0), _IntSub(300), True, False, 2**64, -1, "1", "TMPL_A", 1.0, "0xFF00", "0x10", "0b11", "0o17", "1_000"):
         selfs = Sym("self")
         try:
             run_function(init.node, {"self": selfs, "value": v}, lambda e, me: Sym("super", methods={"__init__": lambda: None}) if isinstance(e, ast.Call) and u(e) == "super()" else (_ for _ in ()).throw(Unknown()), init.fq, permissive=True)
@@ -434,11 +445,16 @@ def r12_5_int_operands(ctx):
         if not accepted:
             ctx.ok("R12.5", construct, "refused by the constructor", init.where)
             continue
-        stored = selfs.attrs["value"]
+        # the operand of the pseudo-op is what the class's own lowering writes, not necessarily the stored value
+        try:
+            lowered, _ = run_function(teal.node, {"self": selfs, "options": Sym("options")}, teal_oracle, teal.fq, permissive=True)
+            stored = lowered.args[0] if isinstance(lowered, OpVal) and lowered.op == "int" and len(lowered.args) == 1 else selfs.attrs["value"]
+        except (Raised, AnalysisError):
+            stored = selfs.attrs["value"]
         op = _const_op(OpS, "int", stored, 0)
         try:
             got, _ = run_function(ev.node, {"op": op}, lambda e, me: dict(table) if u(e) == "intEnumValues" else (_ for _ in ()).throw(Unknown()), ev.fq, permissive=True)
-            ok = isinstance(got, int) and not isinstance(got, bool) and got == int(v) if not isinstance(v, bool) else False
+            ok = isinstance(got, int) and not isinstance(got, bool) and got == (int(v, 0) if isinstance(v, str) else int(v)) if not isinstance(v, bool) else False
             why = f"the constructor accepts it and the constants pass reads {got!r}"
         except Raised as r:
             ok = False
